@@ -59,7 +59,7 @@ def exponents(quick):
     for a in range(0, 3):
         for c in range(1, 4):
             ex.append((a, 0, c, "exp"))
-    return ex if not quick else [e for i, e in enumerate(ex) if i % 2 == 0 or e[0] == 0]
+    return ex
 
 
 def main(tier, seed):
